@@ -432,6 +432,223 @@ def corr_whitener(seed, tier):
     return R
 
 
+# ----------------------------------------------------------------------------------------------------- complex-valued twins
+def cbits(a):
+    a = np.asarray(a, dtype=complex).ravel()
+    out = []
+    for z in a:
+        out.append(f2b(z.real))
+        out.append(f2b(z.imag))
+    return out
+
+
+def uncbits(l, shape=None):
+    v = np.array([b2f(x) for x in l], dtype=float)
+    a = v[0::2] + 1j * v[1::2]
+    return a.reshape(shape) if shape is not None else a
+
+
+def cclose(a, b, tol=TOL):
+    a, b = np.asarray(a, dtype=complex), np.asarray(b, dtype=complex)
+    if a.shape != b.shape:
+        return False
+    if a.size == 0:
+        return True
+    return bool(np.max(np.abs(a - b)) <= tol * max(1.0, np.max(np.abs(a)), np.max(np.abs(b))))
+
+
+def _cfield(rng, n, p):
+    return (rng.normal(size=(n, p)) + 1j * rng.normal(size=(n, p))) @ (rng.normal(size=(p, p)) + 1j * rng.normal(size=(p, p)))
+
+
+def corr_complex(seed, tier):
+    """the SAME polymorphic model definitions instantiated at complex doubles (`XM.CF`) against the complex code paths:
+    ComplexEOF (fit / transform / inverse in preprocessed space, incl. the sign rule for complex data), the CPCCA core of
+    ComplexMCA/CCA/RDA/CPCCA, the Whitener and the PCA maps on complex data, ComplexEOFRotator (Varimax and Promax).
+    This is where a dropped or misplaced conjugation shows up in Tie B."""
+    import xeofs.linalg._numpy._utils as U_
+    from xeofs.preprocessing.whitener import Whitener
+    from xeofs.preprocessing.pca import PCA
+
+    R = Result("complex")
+    rng = np.random.default_rng(14000 + seed)
+    N = {"quick": 6, "thorough": 40, "search": 20}[tier]
+
+    def cmp_all(ans, exp, shapes, small, real_keys=(), tol=1e-7):
+        if ans.get("status") != "ok":
+            R.cmp("status", False, small, ans, "ok")
+            return
+        for key, shp in shapes.items():
+            if key in real_keys:
+                got = unbits(ans[key], shp)
+                R.cmp(small["what"] + ":" + key, close(got, np.asarray(exp[key], dtype=float), tol), small, got.ravel()[:4].tolist(), np.asarray(exp[key]).ravel()[:4].tolist())
+            else:
+                got = uncbits(ans[key], shp)
+                R.cmp(small["what"] + ":" + key, cclose(got, exp[key], tol), small, [str(z) for z in got.ravel()[:3]], [str(z) for z in np.asarray(exp[key]).ravel()[:3]])
+
+    # ---- ComplexEOF
+    reqs, exps = [], []
+    for i in range(N):
+        n, p = int(rng.integers(6, 14)), int(rng.integers(2, 6))
+        k = int(rng.integers(1, min(n - 1, p) + 1))
+        X = da2d(_cfield(rng, n, p), "time", "x")
+        with _SvdSpy() as spy, warnings.catch_warnings():
+            warnings.simplefilter("ignore")
+            model = xe.single.ComplexEOF(n_modes=k, solver="full", center=bool(i % 2)).fit(X, "time")
+        U, s_, VT = spy.calls[-1]
+        r = s_.size
+        sn, fn = model.sample_name, model.feature_name
+        m = int(rng.integers(1, 4))
+        Xn = rng.normal(size=(m, p)) + 1j * rng.normal(size=(m, p))
+        Xn_da = xr.DataArray(Xn, dims=[sn, fn], coords={sn: np.arange(m), fn: model.data["components"].coords[fn]})
+        tf = model._transform_algorithm(Xn_da)
+        exp = {"comps": model.data["components"].transpose(fn, "mode").values, "scores": model.data["scores"].transpose(sn, "mode").values,
+               "expvar": model.data["explained_variance"].values, "ratio": model.explained_variance_ratio().values,
+               "transform": tf.transpose(sn, "mode").values, "inverse": model._inverse_transform_algorithm(tf).transpose(sn, fn).values}
+        req = {"fn": "eof", "cplx": True, "n": n, "p": p, "r": int(r), "k": k, "U": cbits(U[:, :r]), "s": bits(s_), "V": cbits(VT[:r, :].conj().T),
+               "VTt": cbits(VT[:r, :].T), "total": f2b(float(np.real(model.data["total_variance"].values))), "m": m, "X": cbits(Xn)}
+        reqs.append(req)
+        exps.append((exp, {"comps": (p, k), "scores": (n, k), "expvar": (k,), "ratio": (k,), "transform": (m, k), "inverse": (m, p)},
+                     {"what": "ComplexEOF", "n": n, "p": p, "k": k, "seed": seed}))
+        R.tally("twin", "ComplexEOF")
+    for (exp, shapes, small), ans in zip(exps, ask(reqs)):
+        cmp_all(ans, exp, shapes, small, real_keys=("expvar", "ratio"))
+
+    # ---- complex CPCCA core
+    reqs, exps = [], []
+    for i in range(N):
+        n, p, q = int(rng.integers(12, 24)), int(rng.integers(2, 5)), int(rng.integers(2, 5))
+        cls = ["ComplexCPCCA", "ComplexMCA", "ComplexCCA", "ComplexRDA"][i % 4]
+        A = _cfield(rng, n, p)
+        B = _cfield(rng, n, q) + A[:, :1] * (rng.normal(size=(1, q)) + 1j * rng.normal(size=(1, q)))
+        k = int(rng.integers(1, min(p, q) + 1))
+        cfg = dict(n_modes=k, use_pca=bool(i % 3 == 0), n_pca_modes="all", solver="full")
+        if cls == "ComplexCPCCA":
+            cfg["alpha"] = [0.5, 0.0]
+        with _SvdSpy() as spy, warnings.catch_warnings():
+            warnings.simplefilter("ignore")
+            model = getattr(xe.cross, cls)(**cfg).fit(da2d(A, "time", "x"), da2d(B, "time", "y"), "time")
+        U, s_, VT = spy.calls[-1]
+        Cin = spy.inputs[-1]
+        sn, f1, f2 = model.sample_name, model.feature_name[0], model.feature_name[1]
+        Xw = model.data["input_data1"].transpose(sn, f1).values
+        Yw = model.data["input_data2"].transpose(sn, f2).values
+        pw, qw, r = Xw.shape[1], Yw.shape[1], s_.size
+        m = int(rng.integers(1, 4))
+        Xn = (rng.normal(size=(m, pw)) + 1j * rng.normal(size=(m, pw))) * np.abs(Xw).max()
+        Xn_da = xr.DataArray(Xn, dims=[sn, f1], coords={sn: np.arange(100, 100 + m), f1: model.data["input_data1"].coords[f1]})
+        t0 = model._transform_algorithm(X=Xn_da, normalized=False)["X"]
+        t1 = model._transform_algorithm(X=Xn_da, normalized=True)["X"]
+        d = model.data
+        exp = {"crosscov": Cin, "comps1": d["components1"].transpose(f1, "mode").values, "comps2": d["components2"].transpose(f2, "mode").values,
+               "scores1": d["scores1"].transpose(sn, "mode").values, "scores2": d["scores2"].transpose(sn, "mode").values,
+               "svals": d["singular_values"].values, "sqcov": d["squared_covariance"].values, "norm1": d["norm1"].values, "norm2": d["norm2"].values,
+               "transform1": t0.transpose(sn, "mode").values, "transform1n": t1.transpose(sn, "mode").values,
+               "inverse1": model._inverse_transform_algorithm(X=t0)["X"].transpose(sn, f1).values}
+        req = {"fn": "cpcca", "cplx": True, "n": n, "p": pw, "q": qw, "r": int(r), "k": k, "X": cbits(Xw), "Y": cbits(Yw), "Q1": cbits(U[:, :r]), "s": bits(s_),
+               "Q2": cbits(VT[:r, :].conj().T), "VTt": cbits(VT[:r, :].T), "m": m, "Xn": cbits(Xn)}
+        reqs.append(req)
+        exps.append((exp, {"crosscov": (pw, qw), "comps1": (pw, k), "comps2": (qw, k), "scores1": (n, k), "scores2": (n, k), "svals": (k,), "sqcov": (k,),
+                           "norm1": (k,), "norm2": (k,), "transform1": (m, k), "transform1n": (m, k), "inverse1": (m, pw)},
+                     {"what": cls, "n": n, "p": pw, "q": qw, "k": k, "seed": seed}))
+        R.tally("twin", cls)
+    for (exp, shapes, small), ans in zip(exps, ask(reqs)):
+        cmp_all(ans, exp, shapes, small, real_keys=("svals", "sqcov", "norm1", "norm2"), tol=1e-7)
+
+    # ---- Whitener and PCA on complex data
+    reqs, exps = [], []
+    for i in range(N):
+        n, p = int(rng.integers(10, 30)), int(rng.integers(2, 6))
+        alpha = float(rng.choice([0.0, 0.25, 0.5, 0.75]))
+        D = _cfield(rng, n, p)
+        D = D - D.mean(axis=0)
+        X = xr.DataArray(D, dims=("sample", "feature"), coords={"sample": np.arange(n), "feature": np.arange(p)})
+        rec = {}
+        orig = U_._SVD.fit_transform
+
+        def spy2(this, C):
+            out = orig(this, C)
+            rec["C"], rec["s"], rec["V"] = np.array(C), np.array(out[1]), np.array(out[2])
+            return out
+
+        U_._SVD.fit_transform = spy2
+        try:
+            w = Whitener(alpha=alpha).fit(X)
+        finally:
+            U_._SVD.fit_transform = orig
+        k, m = int(rng.integers(1, 4)), int(rng.integers(1, 4))
+        Pm = rng.normal(size=(p, k)) + 1j * rng.normal(size=(p, k))
+        P = xr.DataArray(Pm, dims=("feature", "mode"), coords={"feature": np.arange(p), "mode": np.arange(1, k + 1)})
+        Xn = xr.DataArray(rng.normal(size=(m, p)) + 1j * rng.normal(size=(m, p)), dims=("sample", "feature"), coords={"sample": np.arange(m), "feature": np.arange(p)})
+        Z = w.transform(Xn)
+        exp = {"cov": rec["C"], "T": w.T.transpose("feature", "mode").values, "Tinv": w.Tinv.transpose("mode", "feature").values,
+               "transform": Z.transpose("sample", "feature").values, "inverse": w.inverse_transform_data(Z).transpose("sample", "feature").values,
+               "tcomps": w.transform_components(P).transpose("feature", "mode").values, "icomps": w.inverse_transform_components(P).transpose("feature", "mode").values}
+        reqs.append({"fn": "whitener", "cplx": True, "n": n, "p": p, "k": k, "m": m, "X": cbits(D), "V": cbits(rec["V"]), "s": bits(rec["s"]), "alpha": f2b(alpha),
+                     "P": cbits(Pm), "Xn": cbits(Xn.values)})
+        exps.append((exp, {"cov": (p, p), "T": (p, p), "Tinv": (p, p), "transform": (m, p), "inverse": (m, p), "tcomps": (p, k), "icomps": (p, k)},
+                     {"what": "Whitener", "n": n, "p": p, "alpha": alpha, "seed": seed}))
+        R.tally("twin", "Whitener(complex)")
+        # PCA
+        kk = int(rng.integers(1, p + 1))
+        pca = PCA(n_modes=kk, init_rank_reduction=1.0, random_state=1, compute_eagerly=True)
+        pca.fit(X)
+        V = pca.V.transpose("feature", "mode").values
+        r_ = int(rng.integers(1, 4))
+        Pm2 = rng.normal(size=(p, r_)) + 1j * rng.normal(size=(p, r_))
+        P2 = xr.DataArray(Pm2, dims=("feature", "mode"), coords={"feature": np.arange(p), "mode": np.arange(1, r_ + 1)})
+        Z2 = pca.transform(Xn)
+        Q2 = pca.transform_components(P2)
+        exp2 = {"transform": Z2.transpose("sample", "feature").values, "inverse": pca.inverse_transform_data(Z2).transpose("sample", "feature").values,
+                "tcomps": Q2.transpose("feature", "mode").values, "icomps": pca.inverse_transform_components(Q2).transpose("feature", "mode").values}
+        reqs.append({"fn": "pca", "cplx": True, "p": p, "k": int(V.shape[1]), "m": m, "r": r_, "V": cbits(V), "Xn": cbits(Xn.values), "P": cbits(Pm2)})
+        exps.append((exp2, {"transform": (m, V.shape[1]), "inverse": (m, p), "tcomps": (V.shape[1], r_), "icomps": (p, r_)},
+                     {"what": "PCA", "p": p, "k": int(V.shape[1]), "seed": seed}))
+        R.tally("twin", "PCA(complex)")
+    for (exp, shapes, small), ans in zip(exps, ask(reqs)):
+        cmp_all(ans, exp, shapes, small, tol=1e-7)
+
+    # ---- ComplexEOFRotator
+    reqs, exps = [], []
+    for i in range(N):
+        n, p = int(rng.integers(12, 24)), int(rng.integers(3, 6))
+        k = int(rng.integers(2, p + 1))
+        power = [1, 2][i % 2]
+        X = da2d(_cfield(rng, n, p), "time", "x")
+        try:
+            with warnings.catch_warnings():
+                warnings.simplefilter("ignore")
+                eof = xe.single.ComplexEOF(n_modes=p, solver="full").fit(X, "time")
+                rot = xe.single.ComplexEOFRotator(n_modes=k, power=power, max_iter=5000, rtol=1e-10).fit(eof)
+        except RuntimeError:
+            R.tally("skipped", "rotation did not converge")
+            continue
+        sn, fn = eof.sample_name, eof.feature_name
+        comps0 = eof.data["components"].sel(mode=slice(1, k)).transpose(fn, "mode").values
+        scores0 = eof.data["scores"].sel(mode=slice(1, k)).transpose(sn, "mode").values
+        expvar0 = eof.explained_variance().sel(mode=slice(1, k)).values
+        svals0 = eof.data["norms"].sel(mode=slice(1, k)).values
+        Rm = np.asarray(rot.data["rotation_matrix"].transpose("mode_m", "mode_n").values)
+        RinvT = Rm if power == 1 else np.linalg.inv(Rm).conj().T
+        m = int(rng.integers(1, 4))
+        X2 = rot.preprocessor.transform(da2d(_cfield(rng, m, p), "time", "x", s0=200))
+        tf = rot._transform_algorithm(X2)
+        exp = {"comps": rot.data["components"].transpose(fn, "mode").values, "scores": rot.data["scores"].transpose(sn, "mode").values,
+               "expvar": rot.data["explained_variance"].values, "norms": rot.data["norms"].values, "sgn": rot.data["modes_sign"].values,
+               "transform": tf.transpose(sn, "mode").values, "inverse": rot._inverse_transform_algorithm(tf).transpose(sn, fn).values}
+        perm_exp = [int(v) for v in rot.data["idx_modes_sorted"].values]
+        reqs.append({"fn": "rotator", "cplx": True, "n": n, "p": p, "k": k, "m": m, "power": power, "comps0": cbits(comps0), "scores0": cbits(scores0),
+                     "expvar0": bits(expvar0), "svals0": bits(svals0), "R": cbits(Rm), "RinvT": cbits(RinvT), "X": cbits(X2.transpose(sn, fn).values)})
+        exps.append((exp, {"comps": (p, k), "scores": (n, k), "expvar": (k,), "norms": (k,), "sgn": (k,), "transform": (m, k), "inverse": (m, p)},
+                     {"what": "ComplexEOFRotator", "n": n, "p": p, "k": k, "power": power, "seed": seed}, perm_exp))
+        R.tally("twin", f"ComplexEOFRotator(power={power})")
+    for (exp, shapes, small, perm_exp), ans in zip(exps, ask(reqs)):
+        if ans.get("status") == "ok":
+            R.cmp(small["what"] + ":perm", ans["perm"] == perm_exp, small, ans["perm"], perm_exp)
+        cmp_all(ans, exp, shapes, small, real_keys=("expvar", "norms", "sgn"), tol=1e-6)
+    return R
+
+
 # ----------------------------------------------------------------------------------------------------- Scaler
 def corr_scaler(seed, tier):
     """preprocessing.Scaler.fit/transform/inverse_transform_data on (sample, feature) arrays against XM.scalerTransform /
@@ -1137,6 +1354,7 @@ CORR = {
     "cpcca_core": corr_cpcca_core,
     "rotator": corr_rotator,
     "whitener": corr_whitener,
+    "complex": corr_complex,
     "scaler": corr_scaler,
     "threshold": corr_threshold,
     "validators": corr_validators,
@@ -1151,22 +1369,22 @@ CORR = {
 
 # which correspondences tie the model parts a property's theorems are stated on
 BY_PROP = {
-    "C01": ["eof_pipeline", "sign_rule"],
+    "C01": ["complex", "eof_pipeline", "sign_rule"],
     "C02": ["frame"],
-    "C03": ["eof_pipeline", "scaler", "cpcca_core"],
-    "C04": ["eof_pipeline", "cpcca_core", "rotator"],
+    "C03": ["complex", "eof_pipeline", "scaler", "cpcca_core"],
+    "C04": ["complex", "eof_pipeline", "cpcca_core", "rotator"],
     "C05": ["eof_pipeline"],
     "C06": ["sanitizer", "frame"],
     "C07": ["frame"],
     "C08": ["scaler", "eof_pipeline"],
-    "C09": ["cpcca_core", "whitener", "formulas"],
-    "C10": ["cpcca_core", "whitener", "formulas"],
-    "C11": ["rotator", "formulas"],
+    "C09": ["complex", "cpcca_core", "whitener", "formulas"],
+    "C10": ["complex", "cpcca_core", "whitener", "formulas"],
+    "C11": ["complex", "rotator", "formulas"],
     "C12": ["lazy"],
     "C13": ["codec"],
     "C14": ["history"],
     "C15": ["threshold", "validators", "sign_rule"],
-    "C16": ["whitener", "formulas", "validators"],
+    "C16": ["complex", "whitener", "formulas", "validators"],
     "C17": ["validators", "sanitizer"],
     "C18": ["formulas"],
     "C19": ["formulas"],
